@@ -202,7 +202,7 @@ func runC08(c *core.Ctx) {
 	}
 
 	c.Rule("C08.maybeptr", "in inferGoType every position that the schema marks optional or nullable gets a pointer type unconditionally: from the true edge of each IsOptional / IsNullable / ValueIsNullable test, the type reaches its use (StructField.Type, reflect.SliceOf/MapOf/StructOf) only through reflect.PointerTo - never depending on the element's own kind (a nilable slice or interface cannot distinguish 'present but empty' from absent/null)", 4)
-	if fn := p.Func("node/bindnode", "", "inferGoType"); fn != nil {
+	if fn := goTypeInferrer(p); fn != nil {
 		isPtrTo := func(in ssa.Instruction) bool {
 			ci, ok := in.(ssa.CallInstruction)
 			return ok && (core.IsPkgFunc(ci, "reflect", "PointerTo") || core.IsPkgFunc(ci, "reflect", "PtrTo"))
